@@ -689,3 +689,80 @@ def inject_positions(v, depth=0, limit=6):
                 return None
             return w
         yield as_key, ("extra_key",)
+
+
+# ----------------------------------------------------------------------------------------------
+# hereditary satisfiability
+
+def unsat_members(spec, rng):
+    """Paths of proper sub-specs that admit no value (the root itself may still be satisfiable)."""
+    from .spec import walk
+    out = []
+    for path, node in walk(spec):
+        if not path:
+            continue
+        try:
+            witness(node, rng)
+        except Unsat:
+            out.append(path)
+    return out
+
+
+def prune_unsat(spec, rng):
+    """A hereditarily satisfiable variant: unsatisfiable alternatives / optional keys dropped,
+    typed lists over an unsatisfiable type turned into the empty exact list.  None if impossible."""
+    import copy
+    k = spec["k"]
+
+    def sat(s):
+        try:
+            witness(s, rng)
+            return True
+        except Unsat:
+            return False
+    if not sat(spec):
+        return None
+    s = dict(spec)
+    if k == "alias":
+        t = prune_unsat(spec["target"], rng)
+        if t is None:
+            return None
+        s["target"] = t
+    elif k == "any" and spec.get("types") is not None:
+        alts = [prune_unsat(t, rng) for t in spec["types"]]
+        alts = [a for a in alts if a is not None]
+        if not alts:
+            return None
+        s["types"] = alts
+    elif k == "list":
+        f = spec.get("form", "bare")
+        if f == "typed":
+            t = prune_unsat(spec["type"], rng)
+            if t is None:
+                s = {"k": "list", "form": "elems", "elems": []}
+            else:
+                s["type"] = t
+        elif f == "elems":
+            els = []
+            for e in spec["elems"]:
+                if e == ELL:
+                    els.append(e)
+                else:
+                    t = prune_unsat(e, rng)
+                    if t is None:
+                        return None
+                    els.append(t)
+            s["elems"] = els
+    elif k == "dict" and spec.get("keys") is not None:
+        keys = []
+        for key, sub, opt in spec["keys"]:
+            t = prune_unsat(sub, rng)
+            if t is None:
+                if opt:
+                    continue
+                return None
+            keys.append((key, t, opt))
+        s["keys"] = keys
+        if s.get("relaxed_pos") is not None:
+            s["relaxed_pos"] = min(s["relaxed_pos"], len(keys))
+    return copy.copy(s)
